@@ -621,10 +621,23 @@ theorem handler_loops_no_early_exit :
 theorem process_loops_no_early_exit :
     spRemovelogs_body.all okElemStmt = true ∧ spReopenlogs_body.all okElemStmt = true ∧
     pgRemovelogs_body.all okElemStmt = true ∧ pgReopenlogs_body.all okElemStmt = true ∧
-    sigusr2_body.all okElemStmt = true ∧
+    (∀ m ∈ supervisorMoods, (sigusr2_body m).all okElemStmt = true) ∧
     spRemovelogs_pre = [] ∧ spReopenlogs_pre = [] ∧ pgRemovelogs_pre = [] ∧ pgReopenlogs_pre = [] ∧
     postOk spRemovelogs_post = true ∧ postOk spReopenlogs_post = true ∧
-    postOk pgRemovelogs_post = true ∧ postOk pgReopenlogs_post = true ∧ postOk sigusr2_post = true := by decide
+    postOk pgRemovelogs_post = true ∧ postOk pgReopenlogs_post = true ∧
+    (∀ m ∈ supervisorMoods, postOk (sigusr2_post m) = true) := by decide
+
+/-- **extracted structural fact**: `Supervisor.handle_signal()` specialised to SIGUSR2 consists, in *every* mood of
+    the daemon (RUNNING, RESTARTING, SHUTDOWN, FATAL), of the same statements: the log message,
+    `self.options.reopenlogs()`, and the loop over all groups calling `group.reopenlogs()` — no mood in which the
+    request is only logged or the loop is missing. -/
+theorem sigusr2_same_in_every_mood :
+    ∀ m ∈ supervisorMoods,
+      sigusr2_pre m = [⟨[], "logger.info", "?"⟩, ⟨[], "call", "self.options.reopenlogs"⟩] ∧
+      sigusr2_loops m = true ∧ sigusr2_body m = [⟨[], "elem.reopenlogs", ""⟩] := by decide
+
+/-- the moods the daemon is in between start and exit are among them -/
+theorem moods_listed : "RUNNING" ∈ supervisorMoods ∧ "RESTARTING" ∈ supervisorMoods ∧ "SHUTDOWN" ∈ supervisorMoods := by decide
 
 /-- what a later write does in a handler that is bound to its configured path, in every
     configuration: it is in the file at that path (or, when that fills a rotating log, in `.1`
@@ -914,17 +927,19 @@ theorem groupCall_all (g : Group) :
       (·.map clearD) (fun p => by simp [pgRemovelogs_body, elemBody, elemStep, methOf, (procCall_all p).2]) g
     simp [groupCall, p3, q3, procActs, this]
 
-/-- **SIGUSR2 reaches every log**: `Supervisor.handle_signal()` on SIGUSR2 does not fail, every
-    file-backed handler of the activity logger (any handler list) ends bound to a file at its
-    configured path, and the log of *every* dispatcher of *every* process of *every* group has
-    had `reopen` — stdout and stderr logs, event listeners' logs; nothing else is touched. -/
-theorem sigusr2_reaches_every_log (fmt : String → Bytes) (line : Bytes) (w : World)
-    (hwf : ∀ (j : Nat) c s, w.act[j]? = some (Handler.file c s) → WF s) :
-    ∃ act', sigusr2 fmt line w = some ⟨act', w.groups.map (·.map (·.map reopenD))⟩ ∧
+/-- **SIGUSR2 reaches every log, whatever the daemon is doing**: in every mood (also while it is shutting down
+    or restarting) `Supervisor.handle_signal()` on SIGUSR2 does not fail, every file-backed handler of the
+    activity logger (any handler list) ends bound to a file at its configured path, and the log of *every*
+    dispatcher of *every* process of *every* group has had `reopen` — stdout and stderr logs, event
+    listeners' logs; nothing else is touched. -/
+theorem sigusr2_reaches_every_log (fmt : String → Bytes) (line : Bytes) (mood : String) (hmood : mood ∈ supervisorMoods)
+    (w : World) (hwf : ∀ (j : Nat) c s, w.act[j]? = some (Handler.file c s) → WF s) :
+    ∃ act', sigusr2 fmt line mood w = some ⟨act', w.groups.map (·.map (·.map reopenD))⟩ ∧
       act'.length = w.act.length ∧
       ∀ (j : Nat) c s, w.act[j]? = some (Handler.file c s) →
         ∃ s' f, act'[j]? = some (Handler.file c s') ∧ Bound s' ∧ s'.dir.get 0 = some f ∧ ∀ b, LandsAtPath c s' f b := by
   obtain ⟨_, _, _, _, h5, _, _, _, _, _, _, _, _, q5⟩ := process_loops_no_early_exit
+  obtain ⟨hpre, hloops, hbody⟩ := sigusr2_same_in_every_mood mood hmood
   have hwf' : ∀ (j : Nat) c s1, (logAll line w.act)[j]? = some (Handler.file c s1) → WF s1 := by
     intro j c s1 h
     simp only [logAll, List.getElem?_map, Option.map_eq_some_iff] at h
@@ -937,12 +952,24 @@ theorem sigusr2_reaches_every_log (fmt : String → Bytes) (line : Bytes) (w : W
       obtain ⟨rfl, rfl⟩ := hu
       exact (emit_any c0 s0 (hwf j c0 s0 hx) _).1
   obtain ⟨act', h, hl, hall⟩ := reopenlogs_every_file_handler_bound fmt (logAll line w.act) hwf'
-  have hg := forEach_elem (fun (_ : Group) a => a == "removelogs" || a == "reopenlogs") groupCall sigusr2_body h5
-    (·.map (·.map reopenD)) (fun g => by simp [sigusr2_body, elemBody, elemStep, methOf, (groupCall_all g).1]) w.groups
+  have hg := forEach_elem (fun (_ : Group) a => a == "removelogs" || a == "reopenlogs") groupCall (sigusr2_body mood) (h5 mood hmood)
+    (·.map (·.map reopenD)) (fun g => by rw [hbody]; simp [elemBody, elemStep, methOf, (groupCall_all g).1]) w.groups
   refine ⟨act', ?_, by simpa [logAll] using hl, ?_⟩
-  · simp [sigusr2, q5, sigusr2_pre, runPre, h, groupActs, hg]
+  · simp [sigusr2, q5 mood hmood, hpre, hloops, runPre, h, groupActs, hg]
   · intro j c s hj
     exact hall j c (emit c line s) (by simp [logAll, List.getElem?_map, hj, emitH])
+
+/-- the contrast that makes "in every mood" non-trivial: a handler that only logs the request while the daemon
+    is shutting down (the statements `[logger.info]`, no loop) leaves a log that was moved away unopened —
+    nothing at the configured path, the next child output invisible there -/
+theorem ignored_sigusr2_loses_the_log :
+    let c : Cfg := ⟨true, 100, 2⟩
+    let moved : S := extRemove 0 (init c)
+    ((runPre (fun _ => [1]) (fun _ _ => none) [⟨[], "logger.info", "x"⟩] [Handler.file c moved]).map fun hs =>
+      hs.map fun h => match h with
+        | .file _ s => (decide (s.stream = .attached 0), (s.dir.get 0).isSome)
+        | _ => (true, true)) = some [(false, false)] := by
+  decide
 
 /-- **clearProcessLogs / clearAllProcessLogs reach every log of the process / of every process**:
     each dispatcher's log has had `clear` (removed and reopened: `clear_reopen_safe`), the
@@ -961,6 +988,107 @@ theorem clearProcessLogs_reaches_every_log (w : World) :
 example : logfilePresent 0 (logAll [65] [Handler.stream 0, Handler.file ⟨true, 100, 2⟩ (init ⟨true, 100, 2⟩)]) = true := by decide
 example : ((clearD (Disp.output (some (⟨true, 4, 1⟩, run ⟨true, 4, 1⟩ [.write [1, 2]])))) |> dispLog).map
     (fun cs => (cs.2.dir.get 0).map (·.data)) = some (some []) := by decide
+
+/-! ### the configured bounds are the handler's bounds
+
+  "maxbytes" and "backups" of the property are what the operator wrote — `logfile_maxbytes` / `logfile_backups`
+  in `[supervisord]` or `-y` / `-z` on the command line; `stdout_logfile_maxbytes` / `_backups` (and stderr)
+  in a program's section.  `actCfg` / `chanCfg` compose the regenerated steps between that text and
+  `RotatingFileHandler(maxBytes, backupCount)`: command line vs file priority (`Options._set`), the
+  "Process defaults" test of `Options.process_config`, the keyword arguments of the three `handle_file` calls
+  and the constructor arguments inside `handle_file`. -/
+
+theorem bne_zero_decide (m : Int) : (m != 0) = !decide (m = 0) := by
+  by_cases h : m = 0 <;> simp [h]
+
+/-- what the operator gave: the command line wins over the file -/
+def given (cli file : Option Int) : Option Int := cli <|> file
+
+/-- **a configured value is the value in effect** — every integer, in particular 0: neither the command line
+    priority nor the "Process defaults" step replaces a value that was written. -/
+theorem configured_value_in_effect (cli file : Option Int) (d v : Int) (h : given cli file = some v) :
+    effective cli file d = some v := by
+  cases cli <;> cases file <;> simp_all [given, effective, setCli, setAttr, optDefaultApplies, optSetOverrides,
+    optPrioCli, optPrioFile, optPrioUnset, ile_iff]
+
+/-- only a value that was written nowhere is replaced by the default -/
+theorem unset_value_gets_default (d : Int) : effective none none d = some d := by
+  simp [effective, setCli, setAttr, optDefaultApplies, optSetOverrides, optPrioFile, optPrioUnset, ile_iff]
+
+/-- **the activity log's handler has the configured bounds**: for every maxbytes and backups given on the command
+    line or in the file (0, 1, huge: any integer), the handler that `make_logger()` attaches is
+    `handle_file(rotating = (maxbytes ≠ 0), maxbytes, backups)` — a plain FileHandler exactly when maxbytes = 0,
+    otherwise a RotatingFileHandler with maxBytes = maxbytes and backupCount = backups. -/
+theorem activity_log_has_configured_bounds (cliMb fileMb cliBk fileBk : Option Int) (mb bk : Int)
+    (hm : given cliMb fileMb = some mb) (hb : given cliBk fileBk = some bk) :
+    actCfg cliMb fileMb cliBk fileBk = some ⟨decide (mb ≠ 0), mb, bk⟩ := by
+  have e1 : effective cliMb (some (sectionValue fileMb fileMaxbytesDefault)) optMaxbytesDefault = some mb := by
+    apply configured_value_in_effect
+    cases cliMb <;> cases fileMb <;> simp_all [given, sectionValue]
+  have e2 : effective cliBk (some (sectionValue fileBk fileBackupsDefault)) optBackupsDefault = some bk := by
+    apply configured_value_in_effect
+    cases cliBk <;> cases fileBk <;> simp_all [given, sectionValue]
+  simp [actCfg, e1, e2, handleFileCfg, handleFile_maxBytesFrom, handleFile_backupCountFrom, makeLogger_rotating,
+    makeLogger_maxbytes, makeLogger_backups, bne_zero_decide]
+
+/-- nothing written anywhere: the documented defaults, 50MB and 10 backups -/
+theorem activity_log_defaults : actCfg none none none none = some ⟨true, 50 * 1024 * 1024, 10⟩ := by decide
+
+/-- **a child log's handler has the bounds of its section** (stdout and stderr logs of programs, the stdout log
+    of an event listener) -/
+theorem child_log_has_configured_bounds (listener : Bool) (mb bk : Int) :
+    chanCfg listener (some mb) (some bk) = some ⟨decide (mb ≠ 0), mb, bk⟩ := by
+  cases listener <;> simp [chanCfg, sectionValue, handleFileCfg, handleFile_maxBytesFrom, handleFile_backupCountFrom,
+    normallog_rotating, normallog_maxbytes, normallog_backups, listenerlog_rotating, listenerlog_maxbytes, listenerlog_backups,
+    bne_zero_decide]
+
+theorem child_log_defaults (listener : Bool) : chanCfg listener none none = some ⟨true, 50 * 1024 * 1024, 10⟩ := by
+  cases listener <;> decide
+
+/-- **configured maxbytes = 0: nothing is ever rotated or dropped** — for the activity log as `realize()` +
+    `make_logger()` set it up from `logfile_maxbytes = 0` (or `-y 0`), whatever backups says: after any
+    history of messages and reopens the log holds everything written and no other file exists. -/
+theorem configured_maxbytes0_never_rotates (cliMb fileMb cliBk fileBk : Option Int) (bk : Int)
+    (hm : given cliMb fileMb = some 0) (hb : given cliBk fileBk = some bk) (ops : List Op)
+    (h : ∀ op ∈ ops, writeOrReopen op = true) :
+    ∃ c, actCfg cliMb fileMb cliBk fileBk = some c ∧ (run c ops).err = none ∧
+      (∃ f, (run c ops).dir.get 0 = some f ∧ f.data = written ops) ∧ ∀ n, n ≠ 0 → (run c ops).dir.get n = none := by
+  refine ⟨_, activity_log_has_configured_bounds cliMb fileMb cliBk fileBk 0 bk hm hb, ?_⟩
+  exact maxbytes0_never _ (Or.inl (by simp)) ops h
+
+/-- the same for a child's log with `stdout_logfile_maxbytes = 0` -/
+theorem configured_child_maxbytes0_never_rotates (listener : Bool) (bk : Int) (ops : List Op)
+    (h : ∀ op ∈ ops, writeOrReopen op = true) :
+    ∃ c, chanCfg listener (some 0) (some bk) = some c ∧ (run c ops).err = none ∧
+      (∃ f, (run c ops).dir.get 0 = some f ∧ f.data = written ops) ∧ ∀ n, n ≠ 0 → (run c ops).dir.get n = none := by
+  refine ⟨_, child_log_has_configured_bounds listener 0 bk, ?_⟩
+  exact maxbytes0_never _ (Or.inl (by simp)) ops h
+
+/-- **configured backups = 0: no backup file ever exists** — for the activity log set up from
+    `logfile_backups = 0` (or `-z 0`) with any maxbytes > 0: the log is emptied when it reaches maxbytes. -/
+theorem configured_backups0_no_backup (cliMb fileMb cliBk fileBk : Option Int) (mb : Int) (hpos : 0 < mb)
+    (hm : given cliMb fileMb = some mb) (hb : given cliBk fileBk = some 0) (ops : List Op)
+    (h : ∀ op ∈ ops, own op = true) (b : Bytes) :
+    ∃ c, actCfg cliMb fileMb cliBk fileBk = some c ∧ c.maxBytes = mb ∧
+      ∃ f, (run c ops).dir.get 0 = some f ∧
+        content (run c (ops ++ [.write b])).dir.get 0 = (if ((f.data ++ b).length : Int) < mb then f.data ++ b else []) ∧
+        ∀ n, n ≠ 0 → (run c (ops ++ [.write b])).dir.get n = none := by
+  refine ⟨_, activity_log_has_configured_bounds cliMb fileMb cliBk fileBk mb 0 hm hb, rfl, ?_⟩
+  have hne : mb ≠ 0 := by omega
+  exact backups0_truncates ⟨decide (mb ≠ 0), mb, 0⟩ ⟨by simp [hne], hpos, by simp⟩ rfl ops h b
+
+/-- the contrast: a "Process defaults" step that tests truthiness instead of `is None` turns a configured 0 into
+    the default -/
+theorem truthiness_test_loses_zero :
+    let applies : Option Int → Bool := fun v => !(v.isSome && v != some 0)
+    (if applies (some 0) then some optMaxbytesDefault else some (0 : Int)) = some (50 * 1024 * 1024) := by decide
+
+-- non-vacuity: `-y 0` against a file that says 1000; the file alone; a rotating child log
+example : given (some 0) (some 1000) = some 0 := rfl
+example : actCfg (some 0) (some 1000) none (some 3) = some ⟨false, 0, 3⟩ := by decide
+example : actCfg none (some 1000) none (some 0) = some ⟨true, 1000, 0⟩ := by decide
+example : chanCfg true (some 8) none = some ⟨true, 8, 10⟩ := by decide
+example : ∀ op ∈ [Op.write [1], .reopen, .write [2, 3]], writeOrReopen op = true := by decide
 
 end Fan
 
